@@ -51,6 +51,10 @@ package eval
 // entries (stated here, preserved by exec).
 //@ func redirOp.exec
 //@   props C42 C17
+//   fd sources: -1 (written '-') closes the destination; every other negative number is an invalid fd and raises
+//@   log evalForFd
+//@   exit [negative-source-fd-other-than-the-close-marker-raises] forall k int :: 0 <= k && k < ncalls && callis(k, "evalForFd") && callarg2(k).(bool) && callerr(k) === nil && callres(k).(int) < 0 - 1 ==> !(result === nil)
+//@   exit [close-marker-closes] forall k int :: 0 <= k && k < ncalls && callis(k, "evalForFd") && callarg2(k).(bool) && callerr(k) === nil && callres(k).(int) == 0 - 1 ==> result === nil
 //@   requires [ports-bounded] len(fm.ports) <= 1048576
 
 // The FD that takes over a shared port is another slot of the same table.
